@@ -28,7 +28,7 @@ from vlib import env, gen
 from vlib.report import digest
 
 ID = "C06"
-TECHNIQUE = "runtime monitoring: return values of extract_read_variants / encode_read_alleles / encode_read_distributions, the read arrays and DP/RCOUNT/RCALLS/SNVDP left by the real assemble program's encode_sample_reads, and the FORMAT text of in-process CLI runs, on generated hostile BAMs; independent pileup oracle from the generator's own alignment records"
+TECHNIQUE = "runtime monitoring: return values of extract_read_variants / encode_read_alleles / encode_read_distributions, the read arrays and DP/RCOUNT/RCALLS/SNVDP left by the real assemble program's encode_sample_reads, and the FORMAT text of in-process CLI runs, on generated hostile BAMs; independent pileup oracle from the generator's own alignment records; base-quality runs with the de-duplicated (row, count) pairs matched one-to-one against per-read quality intervals"
 LEVEL = "exploration"
 LEVEL_TEXT = (
     "Exploration: on generated datasets (1-3 contigs, loci with 0-8 SNVs of 2-4 alleles, 1-3 samples per BAM, 1-3 read groups "
@@ -57,6 +57,7 @@ RULE = (
     "non-trivial = at least one alignment overlapping the locus is removed by the cascade or merged with its mate and at least one "
     "read contributes; distinct by hash of (overlapping alignment records, locus SNVs, configuration)"
 )
+LEVEL_TEXT += " With --use-base-phred-scores (half of the quick datasets) the de-duplicated (row, count) pairs expand one-to-one to the per-read probabilities the reads' own base qualities give."
 ASSUMPTIONS = [
     "an alignment overlaps a locus iff its reference span [pos, end) intersects [locus.start, locus.stop) (what a BAM region fetch returns)",
     "secondary alignments (0x100) are not excluded: the statement does not list them",
